@@ -40,8 +40,8 @@ CHECKS = {
         "the store; refutation witness for the pinned setter (type-level add into a pathways store double counts; repaired by a "
         "fix: commit). The state machine transcribes getter, setter, _add_data, set_resolution, _convert_res_elementary.",
    note=TB + "All C19 theorems closed under the global context. Tie: random histories compared op by op inside Coq (accepted flag, "
-        "read result, final store) with exact integers; unknown resolution strings passed to _add_data are outside the model.",
-   design="7/C19", technique="Coq proof (state-machine invariant by induction over histories) + in-Coq differential correspondence"),
+        "read result, final store) with exact integers; unknown resolution strings passed to _add_data are outside the model. Static tie = transcription (harness/translate_c19.py, fail-closed, aliasing check) proved equal to Model/C19code.v, whose refinement of Model/C19.v is proved in Proofs/C19gen*.v; trusted: the transcriber, Model/C19py.v's semantics (value semantics of arrays guarded by the aliasing check and c19_uninitialised_store_is_zero); exception messages and array shapes not modelled.",
+   design="7/C19", technique="Coq proof (state-machine invariant by induction over histories) + static tie: the storage code of twod2.py (tables, the eight reduction helpers, getter/setter of twodspectrum_dictionary, set_data_flag, _convert_res_elementary, _convert_resolution, set_resolution, _add_data) is transcribed from the current source on every run into an executable Python-fragment semantics (Model/C19py.v) and proved to refine the state-machine model for every history (code_refines_model, Proofs/C19gen*.v) + in-Coq differential correspondence"),
  "C09": dict(
    text="Proved in Coq for every commutative ring and every component oracle: the constructor builds the sum of its components' "
         "data and reorganisation energies; a + b for an analytically parameterised left operand and any right operand (value-"
@@ -52,8 +52,8 @@ CHECKS = {
         "as is SpectralDensity.__add__ under a units context. Validated only: measured reorganisation energy (2%), parity of the "
         "even/odd Fourier parts (1e-9), SpectralDensity additivity (monitors).",
    note=TB + "All C09 theorems closed under the global context. The per-component data generators are oracles: the model is fed each "
-        "component built alone by the implementation. Underdamped/B777/CP29 types are not exercised.",
-   design="7/C09", technique="Coq proof (induction over expression trees) + in-Coq differential correspondence on exact rationals"),
+        "component built alone by the implementation. Underdamped/B777/CP29 types are not exercised. Static tie = templates and structural extraction (harness/translate_c09.py) instantiating Proofs/C09gen.v skeleton lemmas; CP29 SpectralDensity stated as it is (known findings sd:cp29:declared_units, sd:cp29:composed); trusted: translator, DFunction._add_me, maker formulas (oracle), unit conversion. Spectral densities do not refuse mixed temperatures (the check is commented out in the code on purpose; temperature does not enter a spectral density's data): the refusal clause is judged for correlation functions only. Programs containing an Underdamped component do not compare cut-off times (outside the property's text).",
+   design="7/C09", technique="Coq proof of additivity over an abstract component oracle (induction over expression trees) + statement-level static tie of constructor dispatch (which maker gets the component as submitted / converted), maker bookkeeping and the addition methods of CorrelationFunction and SpectralDensity (Proofs/C09gen.v; CP29 stated as it is) + in-Coq differential correspondence on exact rationals"),
  "C16": dict(
    text="Proved in Coq for EVERY number of baths and depth (induction, no size bound): each generated level holds every "
         "multi-index of its total order exactly once; the flattened table is complete, duplicate free and ordered by level; "
